@@ -89,6 +89,13 @@ CLAIMS["C11"] = {
     "design_ref": "DESIGN.md section 5, C11",
 }
 
+CLAIMS["C02"] = {
+    "text": "Partial: the bookkeeping is proved, DEFLATE itself is sampled. Proved: after ANY sequence of data messages (above/below threshold), control frames with payloads, broadcast frames built compressed or not, and streamed files, the sender's compression window equals the receiver's decompression window and both equal the last 2^bits bytes of the concatenated payloads of the compressed messages (Session.windows_in_sync, from C17); the sender's dictionary is always a suffix (<= 2^bits) of the RFC 7692 history (send_dict_suffix); and for the Lean RFC 1951 inflater, inflating against the last W bytes of the history gives exactly the result of inflating against the unbounded history whenever all distances are <= W (Spec.Inflate.bounded_window_suffices / bounded_window_iff) - so a window-limited receiver equals the RFC 7692 receiver on every conforming stream. Not proved: that klauspost's compressor/inflater satisfy RFC 1951 with bounded distances (sampled on every compressed frame of the suites).",
+    "note": "Trusted: Lean kernel; klauspost/flate conformance (sampled); Session model tied by the sess suite on real gws-to-gws connections with window read-back.",
+    "technique": "Lean 4 invariant proof over the session bookkeeping + a simulation proof about a Lean RFC 1951 inflater + differential correspondence on real connections",
+    "design_ref": "DESIGN.md section 5, C02",
+}
+
 NOT_CLAIMED = {}
 
 # checks that exist but are not claimed in this commit (with the reason)
